@@ -22,11 +22,20 @@ ASSUMPTIONS = ["field values are C strings (no NUL) shorter than 65535 octets (S
                "constructed HttpHdrCc (as HttpHeader::getCc does)",
                "C locale (isspace/isdigit/tolower sets are regenerated from the running code)"]
 MANIFEST = {
-    "text": "partial: (finding) the code violates the statement on five input classes, each proved as a counterexample theorem and "
-            "re-confirmed on the real code every run; outside them the theorems hold for every field value",
-    "note": "",
-    "technique": "Lean 4 proofs over a branch-by-branch model of parse/packInto/strListGetItem/atoi/quoted-string + table translator + "
-                 "ASan/UBSan differential run with an RFC-grammar reference oracle",
+    "text": "partial: (finding) the code violates the statement on four input classes (numeric arguments with sign / white space / "
+            "trailing text are accepted; quoted-pairs of DQUOTE and backslash are mis-decoded; HTAB inside a quoted field list is "
+            "rejected; a value with unknown directives only is reported as failure and packed as nothing), each proved as a "
+            "counterexample theorem of the model and re-confirmed on the real code every run. Outside them, for EVERY field value: "
+            "parse_exact (each known directive shows what its first effective item records, unknown directives are kept verbatim in "
+            "order), items_wellformed / items_of_joined / items_complete (the splitter delivers exactly the elements of a joined "
+            "list and never stops early), valid_numeric_exact + invalid_numeric_absent_partial, quoted_list_exact, and "
+            "pack_parse_roundtrip_partial (whenever parse succeeds, parse(pack(parse s)) shows the same directives)",
+    "note": "trusted: Lean kernel (+propext/Classical.choice/Quot.sound as printed), translator + dump program, C++ harness, python "
+            "reference oracle; modelled not verified: glibc strtol, String/MemBuf/appendf as byte lists, LookupTable as a "
+            "case-insensitive last-match lookup (covered by the differential run under ASan/UBSan only)",
+    "technique": "Lean 4 proofs (induction over the item list and the scan state, fold invariants, decide over the regenerated table) over "
+                 "a branch-by-branch model of parse/packInto/strListGetItem/httpHeaderParseInt/httpHeaderParseQuotedString + table "
+                 "translator + ASan/UBSan differential run with an RFC-grammar reference oracle and exhaustive small scopes",
 }
 
 UNDER_TEST = ["src/HttpHdrCc.cc", "src/StrList.cc", "src/HttpHeaderTools.cc", "src/HttpHeader.cc"]
